@@ -805,21 +805,41 @@ func run(c *lib.Ctx) {
 		}
 		idxs = append(idxs, i)
 	}
-	// chunks of histories per child process (one store at a time per process)
-	per := 1
-	if !c.Quick() {
-		per = 8
+	// 16 worker processes (one store at a time per process), histories dealt round-robin. Long-lived workers keep
+	// their heap warm: fresh pages are very expensive on the target box.
+	nw := 16
+	if len(idxs) < nw {
+		nw = len(idxs)
 	}
-	var chunks [][]int
-	for i := 0; i < len(idxs); i += per {
-		j := i + per
-		if j > len(idxs) {
-			j = len(idxs)
+	// longest-processing-time-first assignment on an estimated cost (keys x versions), deterministic
+	type wt struct {
+		idx  int
+		cost int
+	}
+	var wts []wt
+	for _, i := range idxs {
+		h := genHistory(c.Seed, c.Tier, i)
+		keys := 0
+		for _, b := range h.Batches {
+			keys += len(b.KV) + len(b.Del)
 		}
-		chunks = append(chunks, idxs[i:j])
+		wts = append(wts, wt{i, (keys + 50) * (len(h.Batches) + 5)})
+	}
+	sort.SliceStable(wts, func(a, b int) bool { return wts[a].cost > wts[b].cost })
+	chunks := make([][]int, nw)
+	load := make([]int, nw)
+	for _, w := range wts {
+		m := 0
+		for k := range load {
+			if load[k] < load[m] {
+				m = k
+			}
+		}
+		chunks[m] = append(chunks[m], w.idx)
+		load[m] += w.cost
 	}
 	lib.Parallel(len(chunks), 16, func(k int) {
-		res := c.Child("hist", childIn{Seed: c.Seed, Tier: c.Tier, Indices: chunks[k]}, lib.ChildOpts{Timeout: 20 * time.Minute, Env: []string{"GOGC=400"}})
+		res := c.Child("hist", childIn{Seed: c.Seed, Tier: c.Tier, Indices: chunks[k]}, lib.ChildOpts{Timeout: 20 * time.Minute})
 		if res.TimedOut {
 			c.Inconclusive("child for histories %v hit the watchdog", chunks[k])
 			return
